@@ -1,6 +1,7 @@
 package blockchain
 
 import (
+	"bytes"
 	"crypto/ecdsa"
 	"errors"
 	"time"
@@ -33,12 +34,22 @@ func vHdrUnmarshalPubkey(pub []byte) (*ecdsa.PublicKey, error) {
 type vVRFKey struct{}
 
 func (vVRFKey) ProofToHash(m, proof []byte) (index [32]byte, err error) {
+	vHdrVrfCalls++
+	vHdrVrfMsg, vHdrVrfProof = m, proof
 	if vBool("crypto.vrfProofInvalid") {
+		vHdrVrfRejected = true
 		return index, errors.New("invalid VRF proof")
 	}
 	index[0] = vU8("crypto.vrfHash0")
+	vHdrVrfHash = index
 	return index, nil
 }
+
+// what the VRF stub was asked and answered (read by C03.b)
+var vHdrVrfCalls int
+var vHdrVrfMsg, vHdrVrfProof []byte
+var vHdrVrfHash [32]byte
+var vHdrVrfRejected bool
 
 //verif:override hdr idena-go/crypto/vrf/p256.NewVRFVerifier vHdrNewVRFVerifier
 func vHdrNewVRFVerifier(pubkey *ecdsa.PublicKey) (vrf.PublicKey, error) {
@@ -106,6 +117,7 @@ func vAnyHeader(tag string, now int64) *types.Header {
 	return &types.Header{ProposedHeader: p}
 }
 
+//verif:obligation C03.b tier=quick use=world,hdr bounds=same-as-C12.e.header(arbitrary-valid-header-pairs,timestamps-from-representative-offsets-around-both-window-rules,crypto-verdicts-arbitrary) covers=accepted,rejected
 //verif:obligation C12.e.header tier=quick use=world,hdr bounds=arbitrary-valid-headers(empty|proposed,all-scalars,pubkey<=2-bytes,optional-fields),crypto-verdicts-arbitrary covers=accepted,rejected
 // ValidateHeader (real code; signature/VRF primitives and the clock are arbitrary verdicts) on an arbitrary
 // pair of IsValid headers, for every consensus configuration: returns a verdict, never panics. This is
@@ -124,9 +136,21 @@ func H_C12e_Header() {
 	cfg := validation.VConfigFor()
 	cfg.Consensus.GenerateGenesisAfterUpgrade = vBool("cfg.generateGenesisAfterUpgrade")
 	chain := &Blockchain{config: cfg, appState: w.App, upgrader: upgrade.VNewUpgrader(cfg)}
+	vHdrVrfCalls, vHdrVrfRejected = 0, false
 	if err := chain.ValidateHeader(hdr, prev); err == nil {
 		vCover("accepted")
 		vAssert(vHeaderPost(hdr), "an accepted header that carries an offline flag names the offline address (relied upon by applyGlobalParams)")
+		// C03.b: what acceptance of a header implies (ValidateHeader is the header half of validateBlock)
+		vAssert(hdr.Height() == prev.Height()+1, "[C03] an accepted header has the height of its parent plus one")
+		vAssert(hdr.ParentHash() == vHdrHash(prev), "[C03] an accepted header links to the hash of the block it is validated against")
+		vAssert(hdr.Time()-vHdrNow <= int64(MaxFutureBlockOffset/time.Second), "[C03] an accepted header is not further in the future than the permitted offset")
+		vAssert(hdr.Time()-prev.Time() >= int64(MinBlockDelay/time.Second), "[C03] an accepted header keeps the minimal delay to its parent")
+		if hdr.ProposedHeader != nil {
+			vAssert(hdr.Coinbase() != (common.Address{}), "[C03] an accepted proposed header names a proposer")
+			vAssert(vHdrVrfCalls == 1 && !vHdrVrfRejected, "[C03] the seed proof of an accepted proposed header was verified once and passed")
+			vAssert(bytes.Equal(vHdrVrfMsg, getSeedData(prev)) && bytes.Equal(vHdrVrfProof, hdr.ProposedHeader.SeedProof), "[C03] the seed proof is verified over the parent's seed and the new height, with the header's own proof")
+			vAssert(hdr.Seed() == types.Seed(vHdrVrfHash), "[C03] the seed of an accepted proposed header is the output of its seed proof")
+		}
 	} else {
 		vCover("rejected")
 	}
